@@ -468,6 +468,16 @@ LITS = ["1", "-1", "300", "1.5", "true", '"s"', "'c'", "AS1", "1.2.3.4", "::1", 
         "Option.None", "Option.Some(1)", "{ a: 1 }", 'f"{1}"']
 
 
+def with_uses(decl):
+    """append a function that takes, returns and compares a value of every type the text declares"""
+    import re
+    out = [decl]
+    for n, (kind, name, params) in enumerate(re.findall(r"(record|enum) (\w+)(\[[^\]]*\])?", decl)):
+        args = "[%s]" % ", ".join(["i32"] * len(params.strip("[]").split(","))) if params else ""
+        out.append("fn use%d(a: %s%s, b: %s%s) -> %s%s { if a == b { a } else { b } }" % (n, name, args, name, args, name, args))
+    return "\n".join(out)
+
+
 def ill_groups():
     g = []
     # 1 a literal of the wrong type where a type is expected (return, let, argument)
@@ -508,6 +518,22 @@ def ill_groups():
         "enum E { V }\nfn f() -> E { E.V(1) }", "enum E { V }\nfn f() -> E { E.W }", "enum E { V }\nfn f() -> i32 { E.V.x }",
         "enum E[T] { V(T), N }\nfn f() -> E[i32] { E.N }", "enum E[T] { V(T), N }\nfn f() { let x = E.N; }",
         "record A[T] { x: T }\nfn f() { let a = A { x: [] }; }"]))
+    g.append(("type_decls_used", [with_uses(d) for d in g[-1][1]]))
+    # valid but unusual programs (zero-sized and never-typed corners of generated code)
+    g.append(("odd_valid", [
+        "fn f(x: ()?, y: ()?) -> bool { x == y }", "fn f() -> List[()?] { [] }", "fn f(x: List[()], y: List[()]) -> bool { x == y }",
+        "fn f(x: Verdict[(), ()], y: Verdict[(), ()]) -> bool { x == y }", "fn f() -> bool { Option.None == Option.None }",
+        "fn f() -> bool { Option.None != Option.None }", "fn f() -> bool { [] == [] }", "fn f() -> bool { [[]] == [[]] }",
+        "fn f() -> bool { () == () }", "fn f() -> bool { { a: () } == { a: () } }", "fn f() -> bool { {} == {} }",
+        "record E {}\nfn f(a: E, b: E) -> bool { a == b }", "enum E { A }\nfn f(a: E, b: E) -> bool { a == b }",
+        "enum E {}\nfn f(a: E, b: E) -> bool { a == b }", "enum E {}\nfn f(a: E?) -> bool { a == a }",
+        "fn f(x: !?) -> bool { x == x }", "fn f(x: List[!]) -> bool { x == x }", "fn f(x: List[!]) -> u64 { x.len() }",
+        "fn f() { let x: List[()] = [(), ()]; x.push(()); }", "fn f() -> String { f\"{()}\" }", "fn f() { let x = [(), ()]; for y in x { y; } }",
+        "fn f() { while true { } }", "fn f() -> i32 { while true { } }", "fn f() -> i32 { while true { return 1; } }",
+        "fn f() -> i32 { for x in [1] { return x; } }", "fn f() -> i32 { loop { } }", "fn f() -> i32 { if true { return 1; } else { return 2; } }",
+        "fn f() -> i32 { return 1; 2 }", "fn f() -> i32 { return 1; return 2; }", "fn f() -> i32 { match Option.Some(1) { Some(x) => return x, None => return 0 } }",
+        "fn f() -> i32 { let x = return 1; }", "fn f() -> i32 { { return 1; } }", "fn f() { let x = { }; }", "fn f() { let x = (); x }",
+        "fn f() -> () { }", "fn f() -> () { () }", "fn f(x: ()) -> () { x }", "fn f(x: ()) { let y = x; let z = [x, y]; }"]))
     # 5 statements and control flow
     body = ["let x = x;", "let x = [x];", "let x = []; x.push(x);", "let x = []; x.push([x]);", "let x = []; let y = [x]; x.push(y);",
             "let x = { a: x };", "x = 1;", "let x = 1; x = true;", "let x = 1; let x = true; x + 1;", "let x: i32 = 1; x += true;",
@@ -1024,32 +1050,6 @@ def lexer_sensitivity(ev, stats):
     stats["lexer_sensitivity"] = out
 
 
-def lexer_code_faithful(tier, ev, verd, stats):
-    """With CodeErrTok = TRUE (the error token as the code computes it) spec and code must agree on every
-    string: the width of the error token is the ONLY difference between Lexer.tla and the real lexer."""
-    d = vlib.workdir(PID, "cfg")
-    rng = random.Random(vlib.seed() + 66)
-    maxlen = 2 if tier == "quick" else 3
-    cfg = lexer_cfg(os.path.join(d, "lex_codeerr.cfg"), maxlen, code_err=True)
-    with open(cfg) as f:
-        text = f.read().replace("INVARIANTS Inv Emit", "INVARIANTS TypeOK Progress TokensTile Emit")
-    with open(cfg, "w") as f:
-        f.write(text)
-    r = run_tlc("MCLexer", cfg, workers=6, coverage=False, timeout=900, heap="6g")
-    require_tlc_ok(r, "MCLexer CodeErrTok")
-    ev.add_tlc(r)
-    batch = [(c, concretise(c["s"], rng)) for c in r.replay]
-    results = vlib.run_batch("c06", [{"k": "lex", "src": s} for (_, s) in batch], nproc=4, pid=PID, tag="lexcode", stall=10)
-    diff = 0
-    for (c, src), res in zip(batch, results):
-        if vlib.outcome_of(res) != "returned" or res["r"].get("outcome") != "ok" or observed_tokens(res) != expected_tokens(c):
-            diff += 1
-            verd.report({"kind": "lexer-range", "what": "differs-even-with-the-code's-error-token"},
-                        "lexer: %r: even with the one-byte error token Lexer.tla (%s) and the real lexer (%s) differ" %
-                        (src, expected_tokens(c), res), {"k": "lex", "src": src, "abstract": c})
-    stats["lexer_code_faithful"] = "%d strings (<= %d symbols) with CodeErrTok = TRUE: %d differences" % (len(batch), maxlen, diff)
-
-
 # ------------------------------------------------------------------------------ entry points
 def run(tier):
     ev = Evidence(PID, tier)
@@ -1064,7 +1064,7 @@ def run(tier):
                "distinct concrete source text / file tree; non-trivial = the lexer run has at least one token, resp. "
                "the input is not blank")
     import time
-    for part in (lexer_spec_to_impl, lexer_impl_to_spec, totality, lexer_code_faithful, lexer_sensitivity):
+    for part in (lexer_spec_to_impl, lexer_impl_to_spec, totality, lexer_sensitivity):
         t0 = time.time()
         if part is lexer_sensitivity:
             part(ev, stats)
